@@ -15,7 +15,7 @@ def obligations(tier):
         ch("isolation", "harness.C10_readers", timeout=T, functions=R, exhaustive=True,
            bounds="two results from any two of the SRT/WebVTT/MicroDVD/SCC readers (16 pairs) x 5 edit operations on the first (add_style, caption style, set_captions, node/time edit, append) x 2 documents; the second result and a later read must be unaffected"),
         ch("reuse_pure", "harness.C10_readers", timeout=T, functions=R[:4], exhaustive=True,
-           bounds="a reader object used for one document then another (both orders) vs. a fresh object, 4 readers incl. SCC"),
+           bounds="a reader object used for one document then another (both orders) vs. a fresh object, 4 readers incl. SCC (also a document whose first caption has no preamble code)"),
         ch("plain_results_disjoint", "harness.C10_readers", timeout=T, functions=R, exhaustive=True,
            bounds="SRT / WebVTT / MicroDVD / SCC, two reads of one document by the same or by two reader objects: the results share no mutable object (layouts, nodes, styles, lists)"),
         ch("sami_lang_order", "harness.C10_readers", timeout=T, functions=("SAMIParser.__init__", "handle_starttag", "_find_lang", "SAMIReader.read (language loop)"),
